@@ -31,7 +31,8 @@ def search(ctx):
         p = runner.write_replay(ctx, f"txskel-{len(ctx.violations)}", dict(
             kind="failing-input", stream="txskel", ops=["tx.report"], model=[out],
             explanation="transactional functions whose failure path neither commits nor triggers the deferred rollback, swallows "
-                        "the error, or stores a statement's error in a variable the rollback handler does not test: " + out))
+                        "the error, stores a statement's error in a variable the rollback handler does not test, or sends a statement to the connection "
+                        "pool (`->pool`) between BEGIN and COMMIT, where it takes effect whatever becomes of the transaction: " + out))
         ctx.violations.append((p, True))
 
 
